@@ -358,7 +358,7 @@ class Node:
                     return False
                 try:
                     return bool(Node(value_node).get_value() == int(default))
-                except (TypeError, ValueError):
+                except (TypeError, ValueError, OverflowError):
                     return False
 
             if value_node.tag == 'tag:yaml.org,2002:float':
